@@ -144,8 +144,8 @@ def uniform_paths(draw):
         zb = min(hi - 0.5, max(lo + 0.5, zb))
     if abs(za - zb) < 1e-3:
         zb = za            # level ray; sub-millimetre (down to denormal) depth differences are not generated
-    if za == zb and rho == 0.0:
-        rho = 1.0
+    if za == zb and rho < 1e-3:
+        rho = 1.0          # identical endpoints (zero-length path) are not generated
     phi = draw(st.one_of(floats(-math.pi, math.pi),
                          st.sampled_from([0.0, math.pi / 2, math.pi, -math.pi / 2])))
     xy = [0.0, 0.0]
@@ -336,6 +336,10 @@ def resolve_pol(ps, path):
     if ps["kind"] == "s":
         return ps["scale"] * s
     return ps["scale"] * np.cross(s, e)
+
+
+IJ = 7    # bracket positions sampled for the interpolation-error bound
+CHORD_SAFETY = 2.0   # measured on 1500 cases: no violation with 1.0, 3 with 0.7, 69 with 0.4
 
 
 interp_specs = st.one_of(st.none(), st.none(),
@@ -701,12 +705,25 @@ def check_interpolation(case, rec):
     weights = np.full(n + 1, 2.0)
     weights[0] = weights[-1] = 1.0
     att = _attenuation(p, freqs)
-    # the grid is logarithmic with a step of at most `step`: the two grid points around a
-    # frequency f lie in [f 10^-step, f 10^step], and a non-increasing attenuation
-    # interpolated linearly between them lies between its values at those two points
-    att_lo = _attenuation(p, freqs * 10.0 ** (-step))
-    att_hi = _attenuation(p, freqs * 10.0 ** step)
-    spread = np.maximum(att_lo, att) - np.minimum(att_hi, att)
+    # The table is logarithmic with a step of at most `step` and contains f = 0.
+    # (1) first-order bound, certain: the two table points around a frequency f lie in
+    #     [f 10^-step, f 10^step], and a non-increasing attenuation interpolated between them
+    #     lies between its values at those two points;
+    # (2) second-order bound: the error of a straight line through two exact values `step`
+    #     apart, maximised over the position g of the bracket [g, g 10^step] around f
+    #     (J positions sampled, doubled for the sampling); narrower brackets err less.
+    shifts = step * np.arange(IJ) / (IJ - 1)
+    g_lo = freqs[None, :] * 10.0 ** (-shifts[:, None])
+    g_hi = g_lo * 10.0 ** step
+    table = _attenuation(p, np.concatenate((g_lo.ravel(), g_hi.ravel())))
+    a_lo = table[:g_lo.size].reshape(g_lo.shape)
+    a_hi = table[g_lo.size:].reshape(g_lo.shape)
+    width = g_hi - g_lo
+    width[:, 0] = 1.0
+    line = a_lo + (a_hi - a_lo) * (freqs[None, :] - g_lo) / width
+    second = np.max(np.abs(line - att[None, :]), axis=0)
+    first = np.maximum(a_lo[-1], att) - np.minimum(a_hi[0], att)
+    spread = np.minimum(first, CHORD_SAFETY * second + 1e-12)
     spread[0] = 0.0          # the table contains f = 0 itself
     if case["polarized"]:
         pol = resolve_pol(case["pol"], p)
@@ -751,6 +768,7 @@ def check_interpolation(case, rec):
 # (d) attenuation(f) = exp(-int ds / L(z,|f|)), in (0,1], even, non-increasing
 
 _GL_X, _GL_W = np.polynomial.legendre.leggauss(10)
+
 
 
 def _leg(index_of, beta, z_a, z_b, inv_len, panels):
@@ -837,10 +855,10 @@ def follow_uniform(lo, hi, start, e, length):
     return legs, bounces, pos
 
 
-def _straight_exponent(legs, inv_len):
+def _straight_exponent(legs, inv_len, n_freq):
     """sum over straight legs of (leg length) x mean of 1/L over the leg's depth span."""
     def total(m):
-        out = 0.0
+        out = np.zeros(n_freq)
         for z0, z1, length in legs:
             if length <= 0:
                 continue
@@ -867,7 +885,8 @@ def ref_exponent_uniform(b, fs):
     if float(np.linalg.norm(end - b.t)) > 1e-6 * max(1.0, float(p.path_length)):
         return None   # the reported direction/length do not lead to the receiver: C02/C18
     return _straight_exponent(
-        legs, lambda z: 1.0 / np.asarray(b.ice.attenuation_length(np.asarray(z, dtype=float), fs), dtype=float))
+        legs, lambda z: 1.0 / np.asarray(b.ice.attenuation_length(np.asarray(z, dtype=float), fs), dtype=float),
+        len(fs))
 
 
 @st.composite
@@ -918,7 +937,9 @@ def check_attenuation(case, rec):
                 "attenuation grows with |f|: %r at %r Hz but %r at %r Hz; %s",
                 float(att[i]), float(fs[i]), float(att[i + 1]), float(fs[i + 1]), _geom(b))
     one = np.asarray(p.attenuation(float(fs[-1])), dtype=float)
-    require(one.size == 1 and abs(float(one.reshape(-1)[0]) - att[-1]) <= 1e-12 * att[-1] + 1e-300,
+    # compared in the exponent: exp() amplifies the rounding of an exponent of several hundred
+    require(one.size == 1 and abs(float(one.reshape(-1)[0]) - att[-1])
+            <= 1e-12 * att[-1] * (1.0 + abs(math.log(att[-1])) if att[-1] > 0 else 0.0) + 1e-300,
             "attenuation(scalar %r) = %r but the array call gives %r; %s", float(fs[-1]), one.tolist(),
             float(att[-1]), _geom(b))
     ref = ref_exponent_uniform(b, fs) if b.kind == "uniform" else ref_exponent_gradient(b, fs)
@@ -1309,7 +1330,8 @@ def check_layered(case, rec):
     att = _attenuation(p, fs)
     ref, ok = _straight_exponent(
         [(float(a_[2]), float(b_[2]), float(np.linalg.norm(b_ - a_))) for a_, b_, _ in legs],
-        lambda z: 1.0 / np.asarray(b.ice.layers[0].attenuation_length(np.asarray(z, dtype=float), fs), dtype=float))
+        lambda z: 1.0 / np.asarray(b.ice.layers[0].attenuation_length(np.asarray(z, dtype=float), fs), dtype=float),
+        len(fs))
     require(bool(np.all(att > 0)) and bool(np.all(att <= 1 + 1e-12)), "attenuation %r leaves (0, 1]; %s", att.tolist(), _geom(b))
     require(bool(np.all(np.diff(att) <= 1e-12)), "attenuation grows with f: %r; %s", att.tolist(), _geom(b))
     if ok:
@@ -1393,8 +1415,9 @@ PROPERTY = Property(
                  floors={"complex_fresnel": 0.04, "nyquist_content": 0.18, "unpolarized": 0.1, "odd": 0.15, "attenuated": 0.3}, classify=_classifier(NYQ_MARK)),
         SubCheck("interpolation", interpolation_cases(), check_interpolation, quick=480, thorough=24000, quick_shards=8,
                  rule="gradient-index solutions x signal x polarization x interpolation step 0.02-3; deviation "
-                      "from the exactly attenuated signal bounded by sum_k |X_k| (A(f_k 10^-step) - "
-                      "A(f_k 10^step)) / 2N; non-trivial = that bound is below 5 % of the output",
+                      "from the exactly attenuated signal bounded by sum_k |X_k| e_k / 2N, e_k = min(A(f_k 10^-step) "
+                      "- A(f_k 10^step), 2 x worst error of a chord of width `step` around f_k); non-trivial = "
+                      "that bound is below 5 % of the output",
                  floors={"tight_bound": 0.12, "unpolarized": 0.08, "coarse_step": 0.2}, classify=_classifier(NYQ_MARK)),
         SubCheck("attenuation", attenuation_cases(), check_attenuation, quick=800, thorough=40000, quick_shards=8,
                  rule=_RULE_PATHS + " x 2-7 frequencies (0, 1 Hz - 5 GHz, 1 GHz +- 1 ulp); range, evenness, "
